@@ -1,7 +1,7 @@
 //! C06 — leaf-directory spill keeps the 16 KiB root budget and the exact mapping.
 
 use crate::gen::{self, entries_fp};
-use crate::io::{AInst, Inst, Pend};
+use crate::io::{AInst, Inst, Pend, Sched};
 use crate::obs::{guard, Ctx};
 use crate::refimpl::{self as R, REntry};
 use crate::rng::Rng;
@@ -393,11 +393,18 @@ pub fn run(ctx: &mut Ctx) {
             let (res, data, pos) = if asyncm {
                 let mut s = AInst::new(vec![0x44; p as usize]);
                 s.c.pos = p;
+                if k % 2 == 1 {
+                    // a sink that accepts only part of most writes
+                    s.c.wsched = Sched::Random(crate::rng::Rng::new(rng.next()), 3000);
+                }
                 let r = guard(|| block_on(l.build_async().to_async_writer(&mut s)));
                 (r, s.c.data, s.c.pos)
             } else {
                 let mut s = Inst::new(vec![0x44; p as usize]);
                 s.c.pos = p;
+                if k % 2 == 1 {
+                    s.c.wsched = Sched::Random(crate::rng::Rng::new(rng.next()), 3000);
+                }
                 let r = guard(|| l.build().to_writer(&mut s));
                 (r, s.c.data, s.c.pos)
             };
